@@ -176,6 +176,15 @@ class Effects:
             for t in (st.targets if isinstance(st, ast.Assign) else [st.target]):
                 if isinstance(t, ast.Name):
                     lenmap[t.id] = Lin(0)
+        if isinstance(st, (ast.Assign, ast.AnnAssign)) and isinstance(st.value, ast.Dict) and st.value.keys \
+                and all(isinstance(k, ast.Constant) for k in st.value.keys) and len({repr(k.value) for k in st.value.keys}) == len(st.value.keys):
+            for t in (st.targets if isinstance(st, ast.Assign) else [st.target]):
+                if isinstance(t, ast.Name):
+                    lenmap[t.id] = Lin(len(st.value.keys))             # a dict display with distinct constant keys
+        if isinstance(st, ast.Assign) and any(isinstance(t, ast.Subscript) and isinstance(t.value, ast.Name) and t.value.id in lenmap for t in st.targets):
+            for t in st.targets:
+                if isinstance(t, ast.Subscript) and isinstance(t.value, ast.Name):
+                    lenmap.pop(t.value.id, None)                        # stored into: the length is not the display's any more
         if isinstance(st, ast.Assign) and len(st.targets) == 1 and isinstance(st.targets[0], ast.Name) and isinstance(st.value, ast.Call) \
                 and isinstance(st.value.func, ast.Name) and st.value.func.id == self.delta and self.delta is not None:
             lenmap[st.targets[0].id] = self.length_of(st.value, lenmap)
@@ -216,6 +225,60 @@ def unify_mm(term, schema, out):
     if schema[1] == 'Implies':
         return term[0] == 'imp' and len(term) == 3 and unify_mm(term[1], schema[2], out) and unify_mm(term[2], schema[3], out)
     return False
+
+
+_REPLAY = {}
+
+
+def replay_function(py):
+    """exec_proof as the rules read it: a copy in which a comprehension bound to a name whose element calls a local helper is the
+    loop it abbreviates (`xs = [h() for _ in ys]` -> `xs = []; for _ in ys: xs.append(h())`), and calls of local helpers that
+    RETURN a value are replaced by the helper's body computing that value (pynormal.expand_assigned_calls; procedures were
+    already expanded at load time).  Both are equivalences; the copy keeps the source positions."""
+    key = id(py)
+    if key in _REPLAY:
+        return _REPLAY[key]
+    import copy
+    from ..core.pynormal import expand_assigned_calls
+    fn = copy.deepcopy(py.function(TR, 'exec_proof'))
+    helpers = {g.name: g for g in fn.body if isinstance(g, ast.FunctionDef)
+               and any(isinstance(r, ast.Return) and r.value is not None for r in ast.walk(g))
+               and not any(isinstance(x, (ast.For, ast.While)) for x in ast.walk(g))}
+    if helpers:
+        changed = False
+        for holder in ast.walk(fn):
+            for fld in ('body', 'orelse', 'finalbody'):
+                blk = getattr(holder, fld, None)
+                if not (isinstance(blk, list) and blk and isinstance(blk[0], ast.stmt)):
+                    continue
+                i = 0
+                while i < len(blk):
+                    st = blk[i]
+                    i += 1
+                    t = st.targets[0] if isinstance(st, ast.Assign) and len(st.targets) == 1 else (st.target if isinstance(st, ast.AnnAssign) else None)
+                    v = getattr(st, 'value', None)
+                    if isinstance(t, ast.Name) and isinstance(v, ast.ListComp) \
+                            and any(isinstance(c, ast.Call) and isinstance(c.func, ast.Name) and c.func.id in helpers for c in ast.walk(v.elt)):
+                        lp = comp_as_loop(fn.body, t.id, v)
+                        if lp is not None:
+                            init = ast.copy_location(ast.Assign(targets=[ast.Name(id=t.id, ctx=ast.Store())], value=ast.List(elts=[], ctx=ast.Load())), st)
+                            blk[i - 1:i] = [ast.fix_missing_locations(init), lp]
+                            i += 1
+                            changed = True
+        fn2 = expand_assigned_calls(fn, lambda name: helpers.get(name))
+        if ast.unparse(fn2) != ast.unparse(fn) or changed:
+            fn = fn2
+            fn.body = [x for x in fn.body if not (isinstance(x, ast.FunctionDef) and x.name in helpers
+                                                  and not any(isinstance(n, ast.Name) and n.id == x.name for y in fn.body if y is not x for n in ast.walk(y)))]
+    from ..core import pynormal as N
+    for _ in range(3):
+        g = copy.deepcopy(fn)
+        k = N.unpack_display_assign(g) + N.propagate_block_constants(g) + N.unroll_constant_ranges(g) + N.dict_stores_to_display(g)
+        if not k:
+            break
+        fn = g
+    _REPLAY[key] = fn
+    return fn
 
 
 def accessors(fn, INTERP):
@@ -262,7 +325,7 @@ def run(ctx):
     py = PyRepo.get()
     w = Wiring(py)
     theory = MT.load()
-    fn = py.function(TR, 'exec_proof')
+    fn = replay_function(py)
     where = py.where(TR, fn)
     params = [a.arg for a in fn.args.args]
     ctx.require(len(params) == 4, 'exec_proof: signature changed (converter, target, proof module, interpreter)')
@@ -396,6 +459,7 @@ def run(ctx):
     conv = py.cls('MetamathConverter')
     ip = conv.methods.get('_import_proof')
     ctx.require(ip is not None, 'anchor vanished: MetamathConverter._import_proof')
+    ip = c15._sums_as_loops(ip)                      # the view C15 reads (sums as loops, scans by position as scans over characters)
     c15.numbering(ctx, py, ip, conv)
     c15.label_tokens(ctx, py, ip)
     c15.label_numbering(ctx, py, ip)
@@ -495,7 +559,30 @@ def antecedent_discharge(ctx, py, fn, loop, LABEL, CONV, STACK, receivers, local
                     probs.append(f'`{res(pops[0].args[0]) if pops[0].args else ""}` is popped, not the top of the stack')
                 def at(body, c):
                     return next(i for i, st in enumerate(body) if any(c is x for x in _own(st)))
-                if not (at(a.body, appends[0]) <= at(a.body, pops[0]) and at(a.body, saves[0]) <= at(a.body, pops[0])):
+
+                def reads_before(call):
+                    # the statements that read the stack for this call - the call's own statement if it mentions the stack, and the
+                    # bindings of the locals it uses (transitively) - all precede the pop
+                    ip = at(a.body, pops[0])
+                    todo, seen_, idx = [at(a.body, call)], set(), []
+                    while todo:
+                        i = todo.pop()
+                        if i in seen_:
+                            continue
+                        seen_.add(i)
+                        st = a.body[i]
+                        if STACK in ast.unparse(st):
+                            idx.append(i)
+                        for nm in {x.id for x in ast.walk(st) if isinstance(x, ast.Name) and isinstance(x.ctx, ast.Load)}:
+                            for j2 in range(i - 1, -1, -1):
+                                b = a.body[j2]
+                                if isinstance(b, (ast.Assign, ast.AnnAssign)) and any(isinstance(t, ast.Name) and t.id == nm for tt in (b.targets if isinstance(b, ast.Assign) else [b.target]) for t in ast.walk(tt)):
+                                    todo.append(j2)
+                                    break
+                    return all(i <= ip if i == at(a.body, call) else i < ip for i in idx)
+                # the Save instruction stores the top of the checker's stack, so the save itself precedes the pop; what is remembered
+                # only has to be READ before the pop
+                if not (reads_before(appends[0]) and at(a.body, saves[0]) <= at(a.body, pops[0]) and reads_before(saves[0])):
                     probs.append('the antecedent is popped before it is remembered and saved')
                 L = appends[0].func.value.id
                 it = ast.unparse(d.iter)
@@ -529,6 +616,40 @@ def implication_shape(ctx, py):
     from ..core.pyeval import PyEval as _PE
     fn = py.modules[TR].functions.get('convert_to_implication')
     ctx.require(fn is not None and len(fn.args.args) == 2, 'anchor vanished: convert_to_implication(antecedents, conclusion)')
+    loops_ = [x for x in fn.body if isinstance(x, ast.For)]
+    if loops_:
+        # the iterative spelling: a right fold - start from Implies(<last antecedent>, conclusion) and wrap the earlier antecedents
+        # around it from the last-but-one to the first
+        An, Cn = fn.args.args[0].arg, fn.args.args[1].arg
+        lp = loops_[0]
+        why = []
+        unpack = [st for st in fn.body if isinstance(st, ast.Assign) and isinstance(st.targets[0], ast.Tuple) and ast.unparse(st.value) == An
+                  and len(st.targets[0].elts) == 2 and isinstance(st.targets[0].elts[0], ast.Starred) and isinstance(st.targets[0].elts[1], ast.Name)]
+        if len(unpack) != 1 or len(loops_) != 1:
+            why.append('the antecedents are not split as (*earlier, last)')
+        else:
+            outer, last = unpack[0].targets[0].elts[0].value.id, unpack[0].targets[0].elts[1].id
+            steps = [st for st in lp.body if isinstance(st, (ast.Assign, ast.AnnAssign))]
+            accs = [(st.targets[0] if isinstance(st, ast.Assign) else st.target) for st in steps]
+            if len(lp.body) != 1 or len(steps) != 1 or not isinstance(accs[0], ast.Name) or not isinstance(lp.target, ast.Name):
+                why.append('the loop does not rebind one accumulator once per antecedent')
+            else:
+                acc = accs[0].id
+                if ast.unparse(lp.iter) not in (f'reversed({outer})', f'{outer}[::-1]'):
+                    why.append(f'the earlier antecedents are wrapped in the order `{ast.unparse(lp.iter)}`, not from the last-but-one to the first')
+                if ast.unparse(steps[0].value) != f'Implies({lp.target.id}, {acc})':
+                    why.append(f'each step builds `{ast.unparse(steps[0].value)}`, not Implies(<antecedent>, <what was built so far>)')
+                inits = [st for st in fn.body if isinstance(st, (ast.Assign, ast.AnnAssign)) and st.value is not None and st is not unpack[0]
+                         and ast.unparse(st.targets[0] if isinstance(st, ast.Assign) else st.target) == acc]
+                if len(inits) != 1 or ast.unparse(inits[0].value) != f'Implies({last}, {Cn})':
+                    why.append(f'the fold does not start from Implies(<last antecedent>, {Cn})')
+                rets_ = [r for r in ast.walk(fn) if isinstance(r, ast.Return)]
+                if not rets_ or any(r.value is None or ast.unparse(r.value) != acc for r in rets_):
+                    why.append('what is returned is not the folded implication')
+        ctx.ob('operand-position', 'implication-first-antecedent-outermost', not why,
+               'convert_to_implication must build a1 -> (a2 -> (.. -> conclusion)): ' + '; '.join(why) + ' - the replay discharges the '
+               'hypotheses by modus ponens starting with the first one', py.where(TR, fn))
+        return
     A, C = (('param', a.arg) for a in fn.args.args)
     HEAD, REST = ('item', A, 0), ('rest', A, 1, 0)
     probs = []
@@ -1111,10 +1232,20 @@ def operand_positions(ctx, py, fn, local_defs, theory, STACK, receivers, LABEL, 
                 and ast.unparse(c.func.value) in receivers]
         inst = [c for s in body for c in _own(s) if isinstance(c, ast.Call) and isinstance(c.func, ast.Attribute) and c.func.attr == 'instantiate'
                 and ast.unparse(c.func.value) in receivers]
-        ctx.require(len(push) == 1 and len(inst) == 1 and isinstance(inst[0].args[1], ast.Dict),
+        plugs = inst[0].args[1] if len(inst) == 1 and len(inst[0].args) == 2 else None
+        if isinstance(plugs, ast.Name) and plugs.id in benv and isinstance(benv[plugs.id].value, ast.Dict) \
+                and sum(1 for s in body for x in ast.walk(s) if isinstance(x, ast.Name) and x.id == plugs.id) == 2:
+            plugs = benv[plugs.id].value                               # a map display bound to a local and passed on, nothing else
+        wrong = [c.func.attr for s in body for c in _own(s) if isinstance(c, ast.Call) and isinstance(c.func, ast.Attribute)
+                 and c.func.attr in ('prop1', 'prop2', 'prop3') and c.func.attr != meth and ast.unparse(c.func.value) in receivers]
+        if not push and wrong:
+            ctx.ob('operand-position', f'{label}/axiom', False,
+                   f'{label}: the replay pushes the {wrong[0]} axiom where Metamath applied {label} (the {meth} schema)', py.where(TR, body[0]))
+            continue
+        ctx.require(len(push) == 1 and len(inst) == 1 and isinstance(plugs, ast.Dict),
                     f'exec_proof, {label}: expected one {meth}() and one instantiate with a literal map')
         got = {}
-        for k, v in zip(inst[0].args[1].keys, inst[0].args[1].values):
+        for k, v in zip(plugs.keys, plugs.values):
             src = benv.get(v.id) if isinstance(v, ast.Name) else None
             sl = src.value if src is not None else v
             if isinstance(sl, ast.Subscript) and ast.unparse(sl.value) == STACK and isinstance(k, ast.Constant):
@@ -1122,7 +1253,9 @@ def operand_positions(ctx, py, fn, local_defs, theory, STACK, receivers, LABEL, 
                     pos = lin_index(sl.slice, {})
                 except ValueError:
                     pos = None
-                pushed = 1 if push[0].lineno < (src.lineno if src is not None else inst[0].lineno) else 0
+                def at_(x):
+                    return next((i for i, s_ in enumerate(body) if s_ is x or any(x is y for y in ast.walk(s_))), len(body))
+                pushed = 1 if at_(push[0]) < at_(src if src is not None else inst[0]) else 0     # statement order, not line order
                 got[k.value] = (pos.c if pos is not None and not pos.t else None, pushed)
         want = {}
         for j, v in enumerate(th['floats']):
@@ -1229,7 +1362,7 @@ def operand_positions(ctx, py, fn, local_defs, theory, STACK, receivers, LABEL, 
 
 def memory_map_standalone(ctx, py):
     """entry point for C15: the same rule without the rest of C16"""
-    fn = py.function(TR, 'exec_proof')
+    fn = replay_function(py)
     params = [a.arg for a in fn.args.args]
     INTERP = params[3]
     receivers, stack_fns = accessors(fn, INTERP)
@@ -1241,7 +1374,7 @@ def memory_map_standalone(ctx, py):
 
 def memory_map(ctx, py, loop, LV, PROOF, STACK, receivers):
     """Z saves the current top and remembers it in order; number k > len(labels) reloads the (k - len(labels))-th saved entry"""
-    fn = py.function(TR, 'exec_proof')
+    fn = replay_function(py)
     env = {}
     for n in fn.body:
         if isinstance(n, ast.Assign) and isinstance(n.targets[0], ast.Name):
